@@ -2,6 +2,7 @@
   C11 — the engine event stream is a well-formed, properly nested protocol.  Property theorems only.
 -/
 import SV.Proofs.Engine
+import SV.Proofs.Stateful
 import SV.Model.Plan
 import SV.Generated.Engine
 
@@ -183,5 +184,15 @@ example : ∃ s, fireAll .repaired (init [⟨1, 1, 0, .failure, false⟩, ⟨2, 
        List.replicate 5 (.cGot false) ++ [.cEmpty, .cAlive, .cJoined]) = some s ∧
       s.c.pc = .done ∧ s.c.ctl.hasToStop = false ∧ s.c.out.getLast? = some (.phaseFinished .error false) := by
   decide
+
+/-! ### the stateful phase: suites are opened and closed one after another, also on every error path -/
+
+open SV.Model.Stateful SV.Proofs.Stateful in
+/-- Whatever way each state-machine run ends (normal, check failure, flaky, unsatisfiable, internal error, Ctrl-C,
+    interrupted before it starts), the thread's stream opens and closes its suites strictly one after another: the
+    `finally` closes the suite on every path. -/
+theorem stateful_suites_bracketed (k : Nat) (suites : List Suite) (h : ∀ s ∈ suites, noSuiteEvents s.scen = true)
+    (hne : suites ≠ []) : suitesWf none (threadEvents k suites) = true :=
+  threadEvents_wf k suites h hne
 
 end SV.Props.C11
